@@ -15,7 +15,10 @@ def main():
         chk = m.get("check", {})
         hist = m.get("history", [])
         first = hist[0]["verdict"] if hist else chk.get("verdict")
-        rows.append((name, m["property"], ", ".join(files), m.get("needs_to_manifest", ""), first, chk.get("verdict"), chk.get("seconds"),
+        now = chk.get("verdict")
+        if m.get("superseded_by_fix"):
+            now = "benign since fix " + m["superseded_by_fix"]
+        rows.append((name, m["property"], ", ".join(files), m.get("needs_to_manifest", ""), first, now, chk.get("seconds"),
                      (chk.get("first_report") or [""])[0], m.get("verified"), m.get("note", "")))
     out = ["# Seeded changes", "",
            "Each directory holds one change to rpcpool/yellowstone-faithful written by a sub-agent that saw only the text of one property",
@@ -38,7 +41,8 @@ def main():
         out.append("- **%s**: %s%s" % (r[0], rep[:400] if rep else "(no report)", ("  \n  note: " + r[9]) if r[9] else ""))
     caught = sum(1 for r in rows if r[5] == "CAUGHT")
     first = sum(1 for r in rows if r[4] == "CAUGHT")
-    out += ["", "%d changes; %d caught by the checks as they were when the change arrived, %d caught now." % (len(rows), first, caught), ""]
+    sup = sum(1 for r in rows if str(r[5]).startswith("benign"))
+    out += ["", "%d changes; %d caught by the checks as they were when the change arrived, %d caught now, %d no longer break the property on the current tree (see note)." % (len(rows), first, caught, sup), ""]
     open(os.path.join(V, "seeded", "README.md"), "w").write("\n".join(out))
     print("\n".join(out[-3:]))
 
